@@ -355,6 +355,44 @@ pub fn regime_search() -> Vec<ProgCase> {
             }
         }
     }
+    // the same regimes with the whole program in ONE operation batch (at most 72 operations, no RESPAN,
+    // no call): the recorded RESPAN finding of C12 (F-C12-c) makes b_chip fail in every multi-batch
+    // program above and would hide a second cause of failure there
+    let mut found1 = std::collections::BTreeSet::new();
+    for h in 0..15usize {
+        for a in 0..40usize {
+            for b in 0..3usize {
+                if h + a + b == 0 || h + a + b > 64 {
+                    continue;
+                }
+                let part = |n: usize, body: &str| if n == 0 { String::new() } else { format!("repeat.{n} {body} end ") };
+                let src = format!("begin {}{}{}end", part(h, "hperm"), part(a, "mem_stream"), part(b, "mem_load"));
+                let Ok(program) = crate::common::assembler().compile(&src) else { continue };
+                let Ok(Ok(t)) = crate::common::exec_trace(&program, &[], processor::AdviceInputs::default(), processor::ExecutionOptions::default()) else { continue };
+                let s = t.trace_len_summary();
+                let c = s.chiplets_trace_len();
+                let rows = c.hash_chiplet_len() + c.bitwise_chiplet_len() + c.memory_chiplet_len() + c.kernel_rom_len();
+                if rows < s.main_trace_len() || rows < s.range_trace_len() || c.memory_chiplet_len() == 0 {
+                    continue;
+                }
+                for j in [6u32, 7] {
+                    for d in [-2i64, -1, 0, 1] {
+                        if rows as i64 == (1i64 << j) + d && found1.insert((j, d)) {
+                            out.push(ProgCase {
+                                name: format!("regime_chiplets_1batch/2^{j}{d:+}/h{h}a{a}b{b}"),
+                                src: src.clone(),
+                                kernel: None,
+                                stack: vec![],
+                                advice: vec![],
+                                merkle_leaves: vec![],
+                                tags: vec!["stack", "hasher", "memory", "range"],
+                            });
+                        }
+                    }
+                }
+            }
+        }
+    }
     out
 }
 
@@ -400,4 +438,31 @@ pub fn pcore() -> Vec<ProgCase> {
         out.push(sh.iter().find(|c| c.name == n).unwrap_or_else(|| panic!("pcore: no shape {n}")).clone());
     }
     out
+}
+
+/// development aid (`vmc shapes`): the trace-shape family with its component lengths
+pub fn print_shapes() {
+    for c in shapes() {
+        let asm = match &c.kernel {
+            Some(k) => crate::common::assembler_with_kernel(k),
+            None => crate::common::assembler(),
+        };
+        let Ok(program) = asm.compile(&c.src) else {
+            println!("{}: does not assemble", c.name);
+            continue;
+        };
+        let adv = processor::AdviceInputs::default().with_stack_values(c.advice.iter().cloned()).unwrap();
+        match crate::common::exec_trace(&program, &c.stack, adv, processor::ExecutionOptions::default()) {
+            Ok(Ok(t)) => {
+                let s = t.trace_len_summary();
+                let ch = s.chiplets_trace_len();
+                println!(
+                    "{}: main {} range {} chiplets {} (hasher {} bitwise {} memory {} kernel {}) -> trace {}",
+                    c.name, s.main_trace_len(), s.range_trace_len(), ch.trace_len(), ch.hash_chiplet_len(), ch.bitwise_chiplet_len(),
+                    ch.memory_chiplet_len(), ch.kernel_rom_len(), s.padded_trace_len()
+                );
+            }
+            other => println!("{}: {:?}", c.name, other.map(|r| r.map(|_| ()).map_err(|e| e.to_string()))),
+        }
+    }
 }
